@@ -18,7 +18,9 @@ ASSUME = [
 def key_of(step, clause):
     a = step['a']
     if step['op'] == 'measured':
-        return 'BubbleDew:measured:%s,%s:%s' % (a['family'], 'ideal' if a['ideal'] else 'gamma', clause)
+        tot = float(sum(a['z9'])) or 1.
+        trace = any(0 < v / tot < 1e-5 for v in a['z9'])
+        return 'BubbleDew:measured:%s,%s,%s:%s' % (a['family'], 'ideal' if a['ideal'] else 'gamma', 'trace' if trace else 'plain', clause)
     return 'BubbleDew:%s:scaled=%s,permuted=%s,n=%d:%s' % (step['op'], a['scaled'], a['permuted'], sum(1 for v in a['w'] if v), clause)
 
 
